@@ -178,7 +178,11 @@ def case_sig(case):
     pages = [p for g in case["rgs"] for p in g["pages"]]
     widths = [p["index_width"] for p in pages if p["enc"] == "DICT"]
     bp = any(r[0] == "bp" for p in pages for r in p["index_runs"])
-    if any(p["enc"] == "DELTA" for p in pages):
+    if case.get("read") == "categories" and any(p["v"] == 2 for p in pages):
+        cause = "categories= read of version-2 dictionary pages (first run header skipped, output item size = bit width)"
+    elif case.get("read") == "categories" and len({json.dumps([g["pad"], g["dict"]]) for g in case["rgs"] if g["b"] >= g["a"]}) > 1:
+        cause = "categories= read of row groups whose dictionaries differ (the last dictionary read labels every row group)"
+    elif any(p["enc"] == "DELTA" for p in pages):
         cause = "delta-binary-packed page"
     elif (case["creator"] != "other" and case.get("stats") == "exact" and case["optional"]
           and any(all(k >= 0 for k in case["cells"][g["a"] - 1:g["b"]]) and
@@ -223,7 +227,21 @@ def replay_chunk(args):
             sys.stderr.flush()
         try:
             pf = fp.ParquetFile(io.BytesIO(data))
-            df = pf.to_pandas()
+            if case.get("read") == "categories":
+                try:
+                    df = pf.to_pandas(categories=["x"])
+                except ValueError as e:
+                    if "dictionary encoding" in str(e):
+                        out["unsupported_ok"] += 1     # refused with an error: every chunk must be dictionary encoded
+                        continue
+                    raise
+                except RuntimeError as e:
+                    if "cannot accommodate number of category labels" in str(e):
+                        out["unsupported_ok"] += 1     # refused with an error: categories={column: n} is needed for that many
+                        continue
+                    raise
+            else:
+                df = pf.to_pandas()
         except NotImplementedError:
             out["unsupported_ok"] += 1
             continue
@@ -341,6 +359,11 @@ def _run(ev, work, thorough, seed):
     ev.add_tlc("Format full product sampled by tlc -simulate", res, layouts=len(uniq))
     ev.tlc_runs[-1]["note"] = "simulation: states counted are those visited, not a complete graph"
     allcases.extend(uniq)
+    # the same layouts read with categories=[column] (dictionary-encoded text columns): every third of them
+    catv = [dict(c, read="categories") for c in allcases
+            if c["kind"] == "utf8" and c["n"] > 0 and all(p["enc"] == "DICT" for g in c["rgs"] for p in g["pages"])][::3]
+    ev.extra["categorical_read_variants"] = len(catv)
+    allcases.extend(catv)
     chunks = [allcases[i::96] for i in range(96)]
     jobs = [(i, c) for i, c in enumerate(chunks) if c]
     results = pmap(replay_chunk, jobs, job_timeout=900)
